@@ -81,6 +81,10 @@ def build(case):
             if case.get("two"):
                 task["Next"] = prefix + "U"
                 states[prefix + "U"] = {"Type": "Task", "Resource": fn("item2"), "End": True}
+            elif case.get("wait_last") and not fails[i]:
+                # the branch ends with a Wait: its timer is what completes the branch (a callback that does not pass through notify())
+                task["Next"] = prefix + "Z"
+                states[prefix + "Z"] = {"Type": "Wait", "Seconds": case["wait_last"], "End": True}
             else:
                 task["End"] = True
             states[prefix + "T"] = task
@@ -107,7 +111,8 @@ def build(case):
         if case.get("mc") is not None:
             fan["MaxConcurrency"] = case["mc"]
         input_value = {"x": 1, "items": list(range(n))}
-    states = {"After": {"Type": "Task", "Resource": fn("after"), "End": True}, "Caught": {"Type": "Task", "Resource": fn("after"), "Parameters": {"caught.$": "$"}, "End": True}}
+    # slow_catch: the Catch target is still running while the cancelled siblings' timers / replies / queued events come in (the execution is not over yet)
+    states = {"After": {"Type": "Task", "Resource": fn("after"), "End": True}, "Caught": {"Type": "Task", "Resource": fn("slow" if case.get("slow_catch") else "after"), "Parameters": {"caught.$": "$"}, "End": True}}
     if case.get("outer"):
         states["F"] = dict(fan, End=True)
         states["F"].pop("Next", None)
@@ -148,8 +153,8 @@ def probe(w, started):
         r["root_published_step"] = pub_step.get(r["root"])
     err_uids = {o["uid"] for o in log if o["kind"] == "publish" and o["queues"] and str(o["queues"][0]).startswith("asl_workflow_reply_to") and b"errorType" in o["body"]}
     replies = {o["correlation_id"]: o["step"] for o in log if o["kind"] == "deliver" and str(o["queue"]).startswith("asl_workflow_reply_to") and o["uid"] in err_uids}
-    # task requests / replies whose delivery happened at a later virtual instant than their publication (the schedule let time pass while they were in flight) or never happened
-    pub_t = {o["uid"]: o["t"] for o in log if o["kind"] == "publish" and o["queues"] and not str(o["queues"][0]).startswith("asl_workflow_events")}     # task requests and their replies
+    # messages whose delivery happened at a later virtual instant than their publication (the schedule let time pass while they were in flight) or never happened
+    pub_t = {o["uid"]: o["t"] for o in log if o["kind"] == "publish" and o["queues"]}     # state events (a Task entered late has less of its TimeoutSeconds left), task requests and their replies
     late = sum(1 for o in log if o["kind"] == "deliver" and o["uid"] in pub_t and o["t"] - pub_t[o["uid"]] > 0.5)
     undelivered = len(set(pub_t) - {o["uid"] for o in log if o["kind"] == "deliver"})
     return {"requests": reqs, "reply_step": replies, "late_replies": late + undelivered}
@@ -233,6 +238,15 @@ def cases():
             c["catch"] = {"ErrorEquals": names, "ResultPath": draw(st.sampled_from(["$.err", "$.err", "$", None]))}
             if c["catch"]["ResultPath"] == "$":
                 c["catch"]["ResultPath"] = "$.err"      # keep the in-band Error convention (finding C01-F8) out of this check
+            c["slow_catch"] = draw(st.booleans())
+        if kind == "parallel" and draw(st.integers(0, 2)) == 0:
+            c["wait_last"] = draw(st.sampled_from([1, 2, 4]))
+        if c.get("slow_catch") and any(fails) and draw(st.booleans()):
+            # the siblings are past their first Task (blocked in a later Wait / Task) when the failure comes, and the Catch target outlives them
+            c["delays"] = [draw(st.sampled_from([1, 3])) if fails[i] else 0 for i in range(n)]
+            if kind == "parallel" and draw(st.booleans()):
+                c["wait_last"] = draw(st.sampled_from([2, 4]))
+                c["two"] = False
         if h in ("retry-ok", "retry-exhaust", "retry+catch"):
             c["retry"] = {"ErrorEquals": names, "IntervalSeconds": draw(st.integers(1, 2)), "MaxAttempts": draw(st.integers(1, 2)), "BackoffRate": 1.0}
             if h == "retry-ok":
